@@ -17,7 +17,8 @@ type Letter struct {
 	Name string
 	JSON string
 	// WellFormed: a representation the federation spec allows (known __typename, a complete
-	// non-null key, required fields present).
+	// non-null key). Representations without their required (@requires) field are not in the
+	// alphabet: the statement does not define their answer (gqlgen reads the field as 0).
 	WellFormed bool
 }
 
@@ -43,7 +44,6 @@ var Alphabet = []Letter{
 	{"Snull", `{"__typename":"Single","id":null}`, false},
 	{"Nbad", `{"__typename":"Nested","owner":"x","slot":1}`, false},
 	{"MnoK", `{"__typename":"Multi"}`, false},
-	{"RnoW", `{"__typename":"Req","id":"3"}`, false},
 }
 
 func letter(name string) (Letter, bool) {
